@@ -593,6 +593,22 @@ def _minmax(R, rid):
                     "MIN / MAX compare through %s instead of Value's total order: NaN compares `equal` to everything (so the result depends on the "
                     "order of the rows) and INTs above 2^53 collapse" % what, [ua.loc(tgt[0])])
         return
+    # the decision to replace is a function of the order of the two values alone: a side condition on the row's value (`&& !is_nan(v)`)
+    # applies to the comparison but not to the first value a group stores, so the fold depends on which row comes first
+    side = [c for c in ua.calls if c.bb in reg and re.search(r"^core::f64::<impl f64>::(is_nan|is_finite|is_infinite|is_normal|is_sign_negative|is_sign_positive|abs|signum)$|"
+                                                              r"^sqlgrep::model::Float::", short(c.name))]
+    vsw = []
+    for b in sorted(reg):
+        info = F.switch_info(ua, b)
+        if info and info[0] == "discr" and (info[1].get("adt") or "") == V and \
+                any(o.kind == "call" and short(o.call.name).endswith("ExpressionExecutionEngine::evaluate") for o in F.origins(ua, info[1]["pl"], depth=10)):
+            vsw.append(b)
+    if side or vsw:
+        R.violation(rid, "update_aggregate|side-condition",
+                    "the MIN / MAX arm looks at the row's value itself (%s), not only at its order against the stored value: a condition that the "
+                    "first value of a group is not subject to makes the result depend on which row arrives first"
+                    % (short(side[0].name).split("::")[-1] if side else "a match on the value's variant"), [side[0].loc() if side else ua.loc(vsw[0])])
+        return
     lt = [c for c in ua.calls if c.bb in reg and re.search(r"PartialOrd(<.*>)?( for &A)?>?::(lt|gt|le|ge|partial_cmp)$|Ord>?::(cmp|min|max)$", short(c.name))
           and ((c.func.get("res_targs") or c.targs)[:1] == [V] or c.targs[:1] in ([V], ["&" + V]))]
     meths = sorted(set(short(c.name).split("::")[-1] for c in lt))
